@@ -41,8 +41,10 @@ type Obs struct {
 	PoolOut  []string `json:"pool_out"`  // values of the pool cells handed back, bottom first
 	PoolAlias []int   `json:"pool_alias"` // index of the first cell of pool_out that is the same pointer
 	StackAliased bool `json:"stack_aliased"` // two stack slots (or a stack slot and a pool cell) shared a pointer at some step
-	Storage  map[string]string `json:"storage,omitempty"`
+	StorKeys []string `json:"stor_keys,omitempty"` // keys the specification wrote, in order of first write
+	StorVals []string `json:"stor_vals,omitempty"` // what StateDB.GetState returns for them after the run
 	panicked bool
+	state    *state.StateDB
 }
 
 type tracer struct {
@@ -132,6 +134,7 @@ func runImpl(code []byte, gas uint64, poolInit []*big.Int) (obs Obs) {
 	st.CreateAccount(contractAddr)
 	st.SetCode(contractAddr, code)
 	cfg := &runtime.Config{GasLimit: gas, State: st, EVMConfig: evmConfig(tr), Time: big.NewInt(1), BlockNumber: big.NewInt(1)}
+	obs.state = st
 	defer func() {
 		if r := recover(); r != nil {
 			obs.Status = StOther
@@ -157,6 +160,20 @@ func runImpl(code []byte, gas uint64, poolInit []*big.Int) (obs Obs) {
 			obs.PoolAlias = append(obs.PoolAlias, i)
 		}
 	}
-	// storage of the contract as left in the (uncommitted) state
+	obs.state = st
 	return obs
+}
+
+// readStorage fills StorKeys/StorVals: the contract's storage as StateDB presents
+// it after the run, at the keys the specification machine wrote.
+func readStorage(o *Obs, keys []*big.Int) {
+	o.StorKeys, o.StorVals = []string{}, []string{}
+	if o.state == nil || o.Status != StOK {
+		return
+	}
+	for _, k := range keys {
+		v := o.state.GetState(contractAddr, common.BigToHash(k))
+		o.StorKeys = append(o.StorKeys, k.String())
+		o.StorVals = append(o.StorVals, new(big.Int).SetBytes(v.Bytes()).String())
+	}
 }
